@@ -102,7 +102,7 @@ func ExecuteScenario(env *Env, sc *Scenario) (out *Outcome, err error) {
 	out = &Outcome{}
 	switch sc.Kind {
 	case "infl":
-		vs, err := ExecuteInfl(env, sc)
+		vs, err := executeInfl(env, sc)
 		out.Violations = vs
 		return out, err
 	}
